@@ -361,3 +361,26 @@ Section EndToEnd.
     congruence.
   Qed.
 End EndToEnd.
+
+(* ---------- the constants of pkg/ignore/rules.go, read from the source (coq/Gen/IgnoreConsts.v) ---------- *)
+From Helm Require Import Gen.IgnoreConsts.
+
+Lemma ignore_constants :
+  (ignore_default_rules = ["templates/.?*"] /\ ignore_contains_checks = ["**"; "/"] /\
+   ignore_match_probes = ["abc"] /\ ignore_prefix_checks = ["#"; "!"; "/"] /\ ignore_suffix_checks = ["/"]) /\
+  (* the model installs exactly the built-in rules of AddDefaults after the rules of the file ... *)
+  (forall (pe : string -> bool) (text : option string),
+     parse_ignore pe text =
+     match parse_lines pe (match text with Some t => ignore_lines t | None => [] end),
+           map (parse_rule pe) ignore_default_rules with
+     | Some ps, [Some (Some d)] => Some (ps ++ [d])%list
+     | Some ps, [Some None] => Some ps
+     | _, _ => None
+     end) /\
+  (* ... and probes a rule with the names parseRule probes it with *)
+  (forall p, gmatch_err p = existsb (fun n => mres_eqb (gmatch p n) MBad) ignore_match_probes).
+Proof.
+  split; [repeat split; reflexivity|]. split.
+  - intros pe text. unfold parse_ignore, ignore_lines. cbn [map ignore_default_rules]. destruct text; reflexivity.
+  - intros p. unfold gmatch_err. cbn [existsb ignore_match_probes]. now rewrite orb_false_r.
+Qed.
